@@ -194,6 +194,110 @@ pub fn oneshot(sub: &str, _rest: &[String], out: &mut dyn Write) -> bool {
             }
             true
         }
+        // hist <threads> <jobfile> : a history of generations in ONE process (C11).  jobfile lines:
+        //   <id> TAB <header> TAB <percent-encoded flag> TAB ...      (flags as on the command line)
+        // threads = 1: the jobs run in file order on the main thread; threads > 1: that many workers pull jobs from a
+        // shared counter.  One output line per job: <id> <status> <hash of the bindings text> <hash of the callback
+        // notification sequence> <hash of the flags the builder prints back>.
+        "hist" => {
+            use std::hash::{Hash, Hasher};
+            use std::sync::atomic::{AtomicUsize, Ordering};
+            use std::sync::{Arc, Mutex};
+            let threads: usize = _rest[0].parse().unwrap();
+            let text = std::fs::read_to_string(dec(&_rest[1])).unwrap();
+            let jobs: Vec<(String, String, Vec<String>)> = text
+                .lines()
+                .filter(|l| !l.is_empty())
+                .map(|l| {
+                    let f: Vec<&str> = l.split('\t').collect();
+                    (f[0].to_string(), dec(f[1]), f[2..].iter().map(|x| dec(x)).collect())
+                })
+                .collect();
+            #[derive(Debug)]
+            struct Rec(Arc<Mutex<Vec<String>>>);
+            impl bindgen::callbacks::ParseCallbacks for Rec {
+                fn header_file(&self, f: &str) {
+                    self.0.lock().unwrap().push(format!("header_file {f}"));
+                }
+                fn include_file(&self, f: &str) {
+                    self.0.lock().unwrap().push(format!("include_file {f}"));
+                }
+                fn read_env_var(&self, k: &str) {
+                    self.0.lock().unwrap().push(format!("read_env_var {k}"));
+                }
+                fn item_name(&self, i: bindgen::callbacks::ItemInfo<'_>) -> Option<String> {
+                    self.0.lock().unwrap().push(format!("item_name {}", i.name));
+                    None
+                }
+                fn int_macro(&self, n: &str, v: i64) -> Option<bindgen::callbacks::IntKind> {
+                    self.0.lock().unwrap().push(format!("int_macro {n} {v}"));
+                    None
+                }
+            }
+            fn h(s: &str) -> u64 {
+                let mut x = std::collections::hash_map::DefaultHasher::new();
+                s.hash(&mut x);
+                x.finish()
+            }
+            let run = move |job: &(String, String, Vec<String>)| -> String {
+                let (id, header, flags) = job;
+                let mut a = vec!["bindgen".to_string(), header.clone()];
+                a.extend(flags.iter().cloned());
+                let (b, _, _) = match bindgen::builder_from_flags(a.into_iter()) {
+                    Ok(x) => x,
+                    Err(e) => return format!("{id} FLAGS-ERR {:016x} 0 0 0 0", h(&e.to_string())),
+                };
+                let seq = Arc::new(Mutex::new(Vec::new()));
+                let b = b.parse_callbacks(Box::new(Rec(seq.clone())));
+                let fl = b.command_line_flags().join("\u{1f}");
+                let r = std::panic::catch_unwind(std::panic::AssertUnwindSafe(|| b.generate()));
+                let cb = seq.lock().unwrap().join("\n");
+                // side outputs: the depfile and the static-function wrapper source, when the flags ask for them
+                let side = |flag: &str, ext: &str| -> u64 {
+                    flags
+                        .iter()
+                        .position(|f| f == flag)
+                        .and_then(|i| flags.get(i + 1))
+                        .and_then(|p| std::fs::read_to_string(format!("{p}{ext}")).ok())
+                        .map_or(0, |t| h(&t))
+                };
+                let (hd, hw) = (side("--depfile", ""), side("--wrap-static-fns-path", ".c"));
+                match r {
+                    Ok(Ok(x)) => format!("{id} OK {:016x} {:016x} {:016x} {hd:016x} {hw:016x}", h(&x.to_string()), h(&cb), h(&fl)),
+                    Ok(Err(e)) => format!("{id} ERR {:016x} {:016x} {:016x} {hd:016x} {hw:016x}", h(&e.to_string()), h(&cb), h(&fl)),
+                    Err(_) => format!("{id} PANIC 0 0 0 0 0"),
+                }
+            };
+            std::panic::set_hook(Box::new(|_| {}));
+            if threads <= 1 {
+                for j in &jobs {
+                    writeln!(out, "{}", run(j)).unwrap();
+                }
+            } else {
+                let jobs = Arc::new(jobs);
+                let next = Arc::new(AtomicUsize::new(0));
+                let results = Arc::new(Mutex::new(Vec::new()));
+                let mut hs = Vec::new();
+                for _ in 0..threads {
+                    let (jobs, next, results, run) = (jobs.clone(), next.clone(), results.clone(), run.clone());
+                    hs.push(std::thread::spawn(move || loop {
+                        let k = next.fetch_add(1, Ordering::SeqCst);
+                        if k >= jobs.len() {
+                            break;
+                        }
+                        let line = run(&jobs[k]);
+                        results.lock().unwrap().push(line);
+                    }));
+                }
+                for t in hs {
+                    t.join().unwrap();
+                }
+                for l in results.lock().unwrap().iter() {
+                    writeln!(out, "{l}").unwrap();
+                }
+            }
+            true
+        }
         // runs a real generation with CargoCallbacks plus a recording callback; stdout carries the
         // cargo lines (printed by bindgen itself) and "CB <kind> <percent-encoded arg>" lines.
         "cargocb" => {
